@@ -477,7 +477,9 @@ func genYTree(t *rapid.T, depth int) JNode {
 		}
 		return n
 	case k < 7:
-		return JNode{K: "str", S: rapid.SampledFrom([]string{"abc", "hello world", "x", "some text", "value"}).Draw(t, "ystr")}
+		// (multi-line texts are rendered as literal block scalars: their trailing blanks and tabs belong to the value)
+		return JNode{K: "str", S: rapid.SampledFrom([]string{"abc", "hello world", "x", "some text", "value", "abc", "value",
+			"first line\nsecond line\n", "a hard break  \nnext paragraph\n", "col a\tcol b\t\nrow 2\t\n", "echo start\nmake test\n"}).Draw(t, "ystr")}
 	case k < 9:
 		return JNode{K: "num", Num: strconv.Itoa(rapid.IntRange(0, 999).Draw(t, "ynum"))}
 	default:
@@ -523,6 +525,8 @@ func writeYAML(sb *strings.Builder, n JNode, indent string, inline bool) {
 			if (kid.K == "obj" || kid.K == "arr") && len(kid.Kids) > 0 {
 				sb.WriteString(pre + k + ":\n")
 				writeYAML(sb, kid, indent+"  ", false)
+			} else if kid.K == "str" && strings.Contains(kid.S, "\n") {
+				sb.WriteString(pre + k + ": |\n" + yamlBlock(kid.S, indent+"  "))
 			} else {
 				sb.WriteString(pre + k + ": " + yamlScalar(kid) + "\n")
 			}
@@ -535,6 +539,8 @@ func writeYAML(sb *strings.Builder, n JNode, indent string, inline bool) {
 			} else if kid.K == "arr" && len(kid.Kids) > 0 {
 				sb.WriteString(indent + "-\n")
 				writeYAML(sb, kid, indent+"  ", false)
+			} else if kid.K == "str" && strings.Contains(kid.S, "\n") {
+				sb.WriteString(indent + "- |\n" + yamlBlock(kid.S, indent+"  "))
 			} else {
 				sb.WriteString(indent + "- " + yamlScalar(kid) + "\n")
 			}
@@ -542,6 +548,15 @@ func writeYAML(sb *strings.Builder, n JNode, indent string, inline bool) {
 	default:
 		sb.WriteString(indent + yamlScalar(n) + "\n")
 	}
+}
+
+// yamlBlock: the lines of a text that ends with one newline, as the body of a literal block scalar.
+func yamlBlock(text, indent string) string {
+	var sb strings.Builder
+	for _, l := range strings.Split(strings.TrimSuffix(text, "\n"), "\n") {
+		sb.WriteString(indent + l + "\n")
+	}
+	return sb.String()
 }
 
 func yamlScalar(n JNode) string {
@@ -653,13 +668,23 @@ type c15Case struct {
 	Spaced BS `json:"spaced_text,omitempty"`
 }
 
+// lastLeafIsBlock: the document's last value is a literal block scalar - its final newline is part of the VALUE.
+func lastLeafIsBlock(n JNode) bool {
+	for (n.K == "obj" || n.K == "arr") && len(n.Kids) > 0 {
+		n = n.Kids[len(n.Kids)-1]
+	}
+	return n.K == "str" && strings.Contains(n.S, "\n")
+}
+
+func (c c15Case) finalNewline() bool { return c.Newline || lastLeafIsBlock(c.Tree) }
+
 func (c c15Case) docText() string {
 	if c.Kind != "yaml" && len(c.Spaced) > 0 {
 		return string(c.Spaced)
 	}
 	if c.Kind == "yaml" {
 		s := renderYAML(c.Tree)
-		if !c.Newline {
+		if !c.finalNewline() {
 			s = strings.TrimSuffix(s, "\n")
 		}
 		return s
@@ -1007,8 +1032,8 @@ func checkC15(c c15Case) error {
 		if err != nil {
 			return fmt.Errorf("stored YAML does not parse: %v: %q", err, clip(stored))
 		}
-		if c.Newline != strings.HasSuffix(stored, "\n") {
-			return fmt.Errorf("presence of the final newline changed: input newline=%v, stored %q", c.Newline, clip(stored))
+		if c.finalNewline() != strings.HasSuffix(stored, "\n") {
+			return fmt.Errorf("presence of the final newline changed: input newline=%v, stored %q", c.finalNewline(), clip(stored))
 		}
 	} else {
 		if !json.Valid([]byte(stored)) {
@@ -1150,7 +1175,15 @@ func normalizeNumbers(v any) any {
 			out[i] = normalizeNumbers(x[i])
 		}
 		return out
-	case nil, string, bool:
+	case string:
+		// the value a YAML callback receives for a literal block scalar lacks the block's final newline and the blanks in front
+		// of it (the library decodes the node's own text, which ends without them): the statement says nothing about the
+		// fidelity of the value handed to a callback - not demanded (DESIGN §8)
+		if strings.Contains(x, "\n") {
+			return strings.TrimRight(x, " \t\n")
+		}
+		return x
+	case nil, bool:
 		return x
 	}
 	rv := reflect.ValueOf(v)
@@ -1283,6 +1316,8 @@ type c16Case struct {
 	TwoDocs bool `json:"two_document_stream,omitempty"`
 	// MergedPaths, if set: the path list of that one matcher (the masked paths interleaved with paths that do not exist)
 	MergedPaths []string `json:"merged_paths,omitempty"`
+	// ASCII (json/sjson): the input text spells every non-ASCII character of keys and strings as \uXXXX (the same document)
+	ASCII bool `json:"input_in_ascii_only_spelling,omitempty"`
 	// MergedType, if set: all masked paths go into ONE Type matcher of this type, in the order of Steps
 	MergedType string `json:"merged_type,omitempty"`
 	Kind    string        `json:"kind"`       // json | sjson | yaml
@@ -1311,6 +1346,16 @@ func nested(a, b []pathComp) bool {
 func otherScalar(t *rapid.T, n JNode, yamlDoc bool) JNode {
 	switch n.K {
 	case "str":
+		if i := strings.Index(n.S, "\n"); i >= 0 && rapid.Bool().Draw(t, "lineendblanks") {
+			// only blanks in front of a line break differ (a markdown hard break, an empty last column)
+			if strings.HasSuffix(n.S[:i], " ") || strings.HasSuffix(n.S[:i], "\t") {
+				return JNode{K: "str", S: strings.TrimRight(n.S[:i], " \t") + n.S[i:]}
+			}
+			return JNode{K: "str", S: n.S[:i] + rapid.SampledFrom([]string{" ", "  ", "\t"}).Draw(t, "blanks") + n.S[i:]}
+		}
+		if strings.HasSuffix(n.S, "\n") {
+			return JNode{K: "str", S: strings.TrimSuffix(n.S, "\n") + rapid.SampledFrom([]string{"x", " changed", "é"}).Draw(t, "ssfx") + "\n"}
+		}
 		return JNode{K: "str", S: n.S + rapid.SampledFrom([]string{"x", " changed", "é"}).Draw(t, "ssfx")}
 	case "num":
 		if yamlDoc {
@@ -1464,6 +1509,7 @@ func genC16(t *rapid.T) c16Case {
 		}
 	}
 	c.TwoDocs = yamlDoc && c.D.K == "obj" && rapid.IntRange(0, 3).Draw(t, "twodocs") == 0
+	c.ASCII = !yamlDoc && rapid.IntRange(0, 3).Draw(t, "asciispelling") == 0
 	c.DPrime = c.D
 	for _, st := range c.Steps {
 		for _, p := range expandEach(c.D, st.Comps) {
@@ -1507,6 +1553,9 @@ func (c c16Case) text(n JNode) string {
 			return y + "---\n" + y
 		}
 		return renderYAML(n)
+	}
+	if c.ASCII {
+		return n.CompactASCII()
 	}
 	return n.Compact()
 }
